@@ -98,7 +98,9 @@ class DispatchingRequestHandler(BaseHTTPRequestHandler):
             http_status, http_reason, response_xml_string = result
         except Exception as ex:
             self.server.logger.error('exception (request from {}): {}', self.path, self.client_address, ex)
-            http_reason = str(ex)
+            # the text of the exception is in the log; it is not a reason phrase (can have several lines or
+            # characters outside latin-1, which send_response can not encode)
+            http_reason = 'exception'
             response_xml_string = b''
             self.send_response(500, http_reason)  # server error
             self.send_header("Content-type", "text/plain; charset=utf-8")
